@@ -187,9 +187,9 @@ def spline(potential_forms, potential_form_builder):
   spline_factory = [s for s in spline_factories if s.spline_keyword == pot2.potential_form ][0]
 
   logger.debug("spline modifier: connecting '{}' with {} to '{}' in range {} to {}".format(
-    pot1.potential_form,
+    getattr(pot1, "potential_form", getattr(pot1, "modifier", None)),
     pot2.potential_form,
-    pot2.potential_form,
+    getattr(pot3, "potential_form", getattr(pot3, "modifier", None)),
     detach_point, attach_point))
 
   # Now build the spline object
